@@ -4,6 +4,7 @@ package c07
 
 import (
 	"bytes"
+	"errors"
 	"fmt"
 	"os"
 	"sort"
@@ -15,6 +16,7 @@ import (
 	"github.com/nspcc-dev/neo-go/pkg/core/transaction"
 	"github.com/nspcc-dev/neo-go/pkg/crypto/keys"
 	"github.com/nspcc-dev/neo-go/pkg/io"
+	"github.com/nspcc-dev/neo-go/pkg/neorpc"
 	"github.com/nspcc-dev/neo-go/pkg/neotest"
 	"github.com/nspcc-dev/neo-go/pkg/util"
 	"github.com/nspcc-dev/neo-go/pkg/vm/opcode"
@@ -22,6 +24,7 @@ import (
 	"github.com/nspcc-dev/neo-go/verifharness/vlib/ev"
 	"github.com/nspcc-dev/neo-go/verifharness/vlib/rng"
 	"github.com/nspcc-dev/neo-go/verifharness/vlib/vchain"
+	"github.com/nspcc-dev/neo-go/verifharness/vlib/vrpc"
 )
 
 type env struct {
@@ -39,6 +42,8 @@ type env struct {
 	broken  bool
 	// attribute prices set by the check itself in the current round
 	conflictsFee, nvbFee int64
+	// the replica's real JSON-RPC server (nil if no loopback port could be opened)
+	rpc *vrpc.Node
 }
 
 func multi(m, n, salt int) neotest.Signer {
@@ -142,6 +147,11 @@ func newEnv(t *testing.T, run *ev.Run, idx int, name string, cfg func(*config.Bl
 		t.Fatal(err)
 	}
 	e.sync()
+	if n, err := vrpc.Start(t, e.rep.BC, nil); err != nil {
+		run.Inconclusive("%s: cannot start the RPC server on a loopback port: %v", name, err)
+	} else {
+		e.rpc = n
+	}
 	return e
 }
 
@@ -153,7 +163,25 @@ func (e *env) sync() {
 	}
 }
 
-func (e *env) close() { e.rep.Close(); e.p.Close() }
+func (e *env) close() {
+	if e.rpc != nil {
+		e.rpc.Stop()
+	}
+	e.rep.Close()
+	e.p.Close()
+}
+
+// poolStateRefusal tells whether an RPC refusal is about what the serving
+// node's pool already holds (not about the transaction itself).
+func poolStateRefusal(err error) bool {
+	for _, c := range []*neorpc.Error{neorpc.ErrAlreadyInPool, neorpc.ErrMempoolCapReached, neorpc.ErrInsufficientFunds} {
+		if errors.Is(err, c) {
+			return true
+		}
+	}
+	m := err.Error()
+	return strings.Contains(m, "already in pool") || strings.Contains(m, "conflict") || strings.Contains(m, "insufficient funds") || strings.Contains(m, "Insufficient funds")
+}
 
 type kase struct {
 	name   string
@@ -325,6 +353,21 @@ func (e *env) admission(round int) {
 		} else {
 			err = e.admit(tx)
 		}
+		// the same transaction submitted to the replica's JSON-RPC server
+		// (sendrawtransaction), as wallets do
+		if e.rpc != nil && derr == nil && k.viaRaw == nil && e.rep.BC.BlockHeight() == e.p.BC.BlockHeight() {
+			cp, _ := transaction.NewTransactionFromBytes(raw)
+			_, rerr := e.rpc.Client.SendRawTransaction(cp)
+			e.run.Obs("rpc_sendrawtransaction_calls", 1)
+			switch {
+			case !k.valid && rerr == nil:
+				e.viol("invalid-transaction-admitted-through-rpc:"+k.name, id, "sendrawtransaction accepted it", k.tx)
+			case k.valid && rerr != nil && !poolStateRefusal(rerr):
+				e.viol("valid-transaction-rejected-through-rpc:"+k.name, id, rerr.Error(), k.tx)
+			case k.valid && rerr != nil:
+				e.run.Obs("rpc_refusals_about_pool_state", 1)
+			}
+		}
 		switch {
 		case k.valid && err != nil:
 			e.viol("valid-transaction-rejected:"+k.name, id, err.Error(), k.tx)
@@ -374,6 +417,21 @@ func (e *env) onchain(round int) {
 		e.run.Case(id, true)
 		tx, _ := wire(k.tx)
 		err := e.admit(tx)
+		// the same transaction submitted to the replica's JSON-RPC server
+		// (sendrawtransaction), as wallets do
+		if e.rpc != nil && e.rep.BC.BlockHeight() == e.p.BC.BlockHeight() {
+			cp, _ := transaction.NewTransactionFromBytes(k.tx.Bytes())
+			_, rerr := e.rpc.Client.SendRawTransaction(cp)
+			e.run.Obs("rpc_sendrawtransaction_calls", 1)
+			switch {
+			case !k.valid && rerr == nil:
+				e.viol("invalid-transaction-admitted-through-rpc:"+k.name, id, "sendrawtransaction accepted it", k.tx)
+			case k.valid && rerr != nil && !poolStateRefusal(rerr):
+				e.viol("valid-transaction-rejected-through-rpc:"+k.name, id, rerr.Error(), k.tx)
+			case k.valid && rerr != nil:
+				e.run.Obs("rpc_refusals_about_pool_state", 1)
+			}
+		}
 		switch {
 		case k.valid && err != nil:
 			e.viol("valid-transaction-rejected:"+k.name, id, err.Error(), k.tx)
@@ -414,6 +472,18 @@ func (e *env) boundary(round int) {
 				if got != wantAttrFee {
 					e.viol("calculated-fee-attribute-part-differs-from-policy-prices", fmt.Sprintf("%s/round%d/boundary/combo%d/script%d", e.name, round, ci, n),
 						fmt.Sprintf("%d Conflicts attributes (price %d) x %d signers, NotValidBefore %v (price %d): attribute part of the calculated fee is %d, prices give %d", nConflicts, e.conflictsFee, len(cb), nConflicts == 3, e.nvbFee, got, wantAttrFee), exact)
+				}
+			}
+			// the fee calculator as wallets see it: calculatenetworkfee of the
+			// serving node must name exactly the acceptance threshold
+			if e.rpc != nil && e.rep.BC.BlockHeight() == e.p.BC.BlockHeight() {
+				got, rerr := e.rpc.Client.CalculateNetworkFee(exact)
+				e.run.Obs("rpc_calculatenetworkfee_calls", 1)
+				if rerr != nil {
+					e.viol("rpc:calculatenetworkfee-fails", fmt.Sprintf("%s/round%d/boundary/combo%d/script%d", e.name, round, ci, n), rerr.Error(), exact)
+				} else if got != exact.NetworkFee {
+					e.viol("rpc:calculatenetworkfee-differs-from-acceptance-threshold", fmt.Sprintf("%s/round%d/boundary/combo%d/script%d", e.name, round, ci, n),
+						fmt.Sprintf("calculatenetworkfee says %d, the acceptance threshold is %d (%d signers, script %d bytes, fee-per-byte %d, exec-fee %d)", got, exact.NetworkFee, len(cb), n, e.p.BC.FeePerByte(), e.p.BC.GetBaseExecFee()), exact)
 				}
 			}
 			less := e.resign(exact, cb)
